@@ -118,6 +118,24 @@ pub struct Shared {
     /// calls outside the transport contract (the real transport would return an error)
     pub contract_errors: Vec<String>,
     pub handle: Option<TransportHandle>,
+    /// connection reports sent to the protocols and connection events seen at the outputs, in the
+    /// order in which they happened (one thread, one pump: the order of this log is the real order)
+    pub io: Vec<Io>,
+}
+
+/// One entry of the input/output order log (see `Shared::io`).
+#[derive(Debug, Clone)]
+pub enum Io {
+    /// `report_connection_established` is about to be sent to every protocol
+    RepEst { cid: Cid, peer: PeerId },
+    /// ... and failed (a protocol channel is closed): the manager rolls the connection back
+    RepEstFailed { cid: Cid, peer: PeerId },
+    /// `report_connection_closed` is about to be sent to every protocol, then to the manager
+    RepClosed { cid: Cid, peer: PeerId },
+    SvcEst { svc: usize, peer: PeerId },
+    SvcClosed { svc: usize, peer: PeerId },
+    MgrEst { peer: PeerId },
+    MgrClosed { peer: PeerId },
 }
 
 struct STcp {
@@ -150,12 +168,14 @@ impl ScriptedTransport for STcp {
         let mut set = s.handle.as_ref().expect("handle").protocol_set(cid);
         let shared = self.shared.clone();
         Ok(Box::pin(async move {
+            shared.lock().io.push(Io::RepEst { cid, peer });
             match set.verif_report_connection_established(peer, endpoint.clone()).await {
                 Ok(()) => {
                     shared.lock().live.push(LiveConn { cid, peer, endpoint, set });
                     Ok(())
                 }
                 Err(e) => {
+                    shared.lock().io.push(Io::RepEstFailed { cid, peer });
                     shared.lock().accept_failed.push(cid);
                     Err(e)
                 }
@@ -417,6 +437,11 @@ impl World {
                                 }
                                 other => MgrEvent::Other(format!("{other:?}")),
                             };
+                            match &ev {
+                                MgrEvent::Established { peer, .. } => self.shared.lock().io.push(Io::MgrEst { peer: *peer }),
+                                MgrEvent::Closed { peer, .. } => self.shared.lock().io.push(Io::MgrClosed { peer: *peer }),
+                                _ => {}
+                            }
                             self.mgr_events.push((step, ev));
                         }
                         Poll::Ready(None) => {
@@ -441,6 +466,11 @@ impl World {
                                 SvcEvent::SubstreamOpened { peer, direction, substream, .. } => SvcEv::SubstreamOpened { peer, direction, substream },
                                 SvcEvent::SubstreamOpenFailure { substream, error } => SvcEv::SubstreamOpenFailure { substream, error: format!("{error:?}") },
                             };
+                            match &ev {
+                                SvcEv::Established { peer, .. } => self.shared.lock().io.push(Io::SvcEst { svc: i, peer: *peer }),
+                                SvcEv::Closed { peer } => self.shared.lock().io.push(Io::SvcClosed { svc: i, peer: *peer }),
+                                _ => {}
+                            }
                             self.svc_events.push((step, i, ev));
                         }
                         _ => break,
@@ -680,6 +710,7 @@ impl World {
             s.live.remove(p)
         };
         let LiveConn { cid, peer, mut set, .. } = conn;
+        self.shared.lock().io.push(Io::RepClosed { cid, peer });
         let _ = poll_once(set.verif_report_connection_closed(peer, cid));
         drop(set);
         true
